@@ -5,7 +5,9 @@ import itertools
 
 PROP = "C04"
 CONSTS = []
-THEOREMS = {"SmVerif.Props.C04": []}
+THEOREMS = {"SmVerif.Props.C04": ["SmVerif.C04." + t for t in (
+    "c04_sorted_new", "c04_sort_of_sorted", "c04_lookup_safe", "c04_lookup_none_iff", "c04_lookup_greatest",
+    "c04_lookup_exact_first", "c04_lookup_admissible")]}
 TRUSTED = BASE_TRUST + ["model: greatest_lower_bound (utils.rs) over std's binary_search_by (algorithm of Rust 1.95 mirrored literally), SourceMap::new's sort, lookup_token (types.rs)"]
 ASSUMPTIONS = ["slice::sort_unstable_by_key returns a sorted permutation and leaves a sorted slice unchanged", "Token::idx is observed through TokenIter::seek"]
 RULE = ("map.lookup: token lists with many tokens on one position, single/empty maps, given in position order when positions repeat and in arbitrary order otherwise; queries at every token position +-1, line +-1, (0,0), u32::MAX; "
